@@ -83,6 +83,9 @@ mod utils;
 /// The value type used by Tera and supporting types (`Key`, `Map`, `Number`, `ValueKind`).
 pub mod value;
 pub(crate) mod vm;
+/// Observation hooks for the external verification harness
+#[cfg(feature = "verif-hooks")]
+pub mod verif;
 
 pub use crate::tera::{EscapeFn, Tera};
 pub use args::{ArgFromValue, Kwargs};
